@@ -38,10 +38,11 @@ class _Pending(Exception):
     pass
 
 
-def scn(sym, cov, calls, cancel=None, stop_cancel=None, eager=False, T=1, J=1):
+def scn(sym, cov, calls, cancel=None, stop_cancel=None, eager=False, T=1, J=1, stop_twice=False):
     """calls: list of (api, kind): api in 'soon' | 'call' | 'start'; kind in 'sync' | 'coro' | 'raise' | 'block' | 'started' | 'nostart-return' | 'nostart-block' | 'nostart-raise'
     cancel: index of the call whose future is cancelled at a symbolic instant
-    stop_cancel: None = leave the portal context normally after everything scripted; True/False = portal.stop(cancel_remaining=...) at a symbolic instant"""
+    stop_cancel: None = leave the portal context normally after everything scripted; True/False = portal.stop(cancel_remaining=...) at a symbolic instant
+    stop_twice: after that stop(), a second portal.stop(cancel_remaining=True) follows some ticks later (graceful stop first, then forced)"""
     import anyio
     import anyio._backends._asyncio as B
     import anyio.from_thread as FT
@@ -60,6 +61,7 @@ def scn(sym, cov, calls, cancel=None, stop_cancel=None, eager=False, T=1, J=1):
         cj = sym.int("cj", 0, J)
     if stop_cancel is not None:
         st_t = sym.int("stop_t", 0, T + 2)
+        st2 = sym.int("stop2_d", 0, T) if stop_twice else 0
     created: list = []
     foreign = [False]
     real_ident = FT.get_ident
@@ -213,6 +215,9 @@ def scn(sym, cov, calls, cancel=None, stop_cancel=None, eager=False, T=1, J=1):
                     await anyio.sleep(st_t)
                     state["stopped"] = True
                     await portal.stop(cancel_remaining=stop_cancel)
+                    if stop_twice:
+                        await anyio.sleep(st2)
+                        await portal.stop(cancel_remaining=True)
                 else:
                     await anyio.sleep(T + 3)
                     # nothing scripted is left: release calls that block forever so that the context can be left
@@ -270,10 +275,10 @@ def scn(sym, cov, calls, cancel=None, stop_cancel=None, eager=False, T=1, J=1):
         chk(f.done(), "future-left-pending", {"call": k, "task": tasklog.get(k)})
         if f.cancelled():
             # (a cancel request may race with the task's own completion in the same cycle; the caller's cancel wins)
-            was_requested = (cancel == k and i.get("cancel_result")) or stop_cancel is True or i.get("late_cancel")
+            was_requested = (cancel == k and i.get("cancel_result")) or stop_cancel is True or stop_twice or i.get("late_cancel")
             chk(was_requested, "future-cancelled-without-request", k)
             cov.hit("portal:future-cancel-cancelled-task", cancel == k and tasklog.get(k) == "cancelled")
-            cov.hit("portal:cancel_remaining", stop_cancel is True and cancel != k)
+            cov.hit("portal:cancel_remaining", (stop_cancel is True or stop_twice) and cancel != k)
         elif f.exception() is not None:
             chk(f.exception() is excs.get(k), "wrong-exception-delivered", {"call": k, "got": repr(f.exception())})
             cov.hit("portal:exception-delivered")
@@ -281,7 +286,7 @@ def scn(sym, cov, calls, cancel=None, stop_cancel=None, eager=False, T=1, J=1):
             chk(tasklog.get(k) == "returned" and ran.get(k) == 1, "result-without-execution", k)
             chk(f.result() == v[k], "wrong-value-delivered", {"call": k, "got": f.result(), "want": v[k]})
             cov.hit("portal:value-delivered")
-        if cancel is not None and cancel != k and stop_cancel is not True and not i.get("late_cancel"):
+        if cancel is not None and cancel != k and stop_cancel is not True and not stop_twice and not i.get("late_cancel"):
             chk(tasklog.get(k) != "cancelled", "cancelling-one-future-cancelled-another-task", {"cancelled_call": cancel, "victim": k})
         if api == "start":
             sf = i.get("status_future")
@@ -318,6 +323,8 @@ def units(tier):
     add("soon xcleanup + soon block stop(cancel)", [("soon", "xcleanup"), ("soon", "block")], stop_cancel=True)
     add("soon block + call coro stop(cancel)", [("soon", "block"), ("call", "coro")], stop_cancel=True)
     add("soon coro + soon coro stop(no cancel)", [("soon", "coro"), ("soon", "coro")], stop_cancel=False)
+    add("soon block + soon coro stop() then stop(cancel)", [("soon", "block"), ("soon", "coro")], stop_cancel=False, stop_twice=True)
+    add("start nostart-block stop() then stop(cancel)", [("start", "nostart-block")], stop_cancel=False, stop_twice=True)
     add("start started", [("start", "started")])
     add("start started cancel0", [("start", "started")], cancel=0)
     add("start nostart-return", [("start", "nostart-return")])
